@@ -7,6 +7,7 @@ from vf.props.cfgcommon import ref_of, tags_of
 from vf.worker import call
 
 PROP = "C12"
+TECHNIQUE = "runtime contracts with reference-model oracle; generators drained by the monitor under sys.monitoring step budgets (bounded progress)"
 RULE = ("grammars as in C08/C09; is_empty/bool, is_finite, get_generating_symbols, get_nullable_symbols, "
         "get_reachable_symbols compared with reference fixpoints (exact finiteness by the growing-edge-on-a-cycle "
         "criterion); get_words(n) for n in 0..5 and unbounded (only on reference-finite languages, under a logical "
